@@ -133,9 +133,9 @@ pub fn plan_for(prop: &str, tier: &str) -> Plan {
         }
         "C13" => {
             p.scenarios = if q {
-                sc(&[("flow", 0), ("flow-cap", 0), ("repl-i1-sz", 1), ("repl", 1), ("repl-div", 1), ("repl-mix", 1), ("repl-batch-probe", 0), ("repl-grown", 0), ("snap-unr", 0), ("snap-unr", 1), ("snap", 1), ("flow-elect-inherit", 0), ("flow-elect", 0), ("fig8-back-t4", 0), ("flow", 1), ("repl-batch", 1)])
+                sc(&[("flow", 0), ("flow-cap", 0), ("repl-i1-sz", 1), ("repl", 1), ("repl-div", 1), ("repl-mix", 1), ("repl-batch-probe", 0), ("repl-grown", 0), ("snap-unr", 0), ("snap-unr", 1), ("snap", 1), ("flow-elect-inherit", 0), ("repl-batch", 1), ("flow-elect", 0), ("fig8-back-t4", 0), ("flow", 1)])
             } else {
-                sc(&[("flow", 0), ("flow-cap", 0), ("repl-i1-sz", 1), ("repl", 1), ("repl-div", 1), ("repl-mix", 1), ("repl-batch-probe", 0), ("repl-grown", 0), ("snap-unr", 0), ("snap-unr", 1), ("snap", 1), ("flow-elect-inherit", 0), ("flow-elect", 0), ("fig8-back-t4", 0), ("flow", 1), ("repl-batch", 1), ("flow-div", 1), ("flow-batch", 1), ("repl-fetch", 1), ("flow-cap", 1), ("repl-mix", 3), ("repl", 2), ("flow", 2), ("repl-batch", 2)])
+                sc(&[("flow", 0), ("flow-cap", 0), ("repl-i1-sz", 1), ("repl", 1), ("repl-div", 1), ("repl-mix", 1), ("repl-batch-probe", 0), ("repl-grown", 0), ("snap-unr", 0), ("snap-unr", 1), ("snap", 1), ("flow-elect-inherit", 0), ("repl-batch", 1), ("flow-elect", 0), ("fig8-back-t4", 0), ("flow", 1), ("flow-div", 1), ("flow-batch", 1), ("repl-fetch", 1), ("flow-cap", 1), ("repl-mix", 3), ("repl", 2), ("flow", 2), ("repl-batch", 2)])
             };
             p.required_stats = vec![Stat::AppendsChecked, Stat::HeartbeatsChecked, Stat::WindowFull, Stat::ProbePaused, Stat::ProposalsAccepted, Stat::ProposalsRefused];
             p.explanation = "explicit-state exploration over all ack/reject/heartbeat-response orders incl. stale, duplicated and reordered ones and runtime window resizing; reference window model per (leader, follower) driven by generated and delivered messages; every generated MsgAppend / MsgHeartbeat checked for well-formedness against the leader's own log; ghost of uncommitted payload bytes".into();
